@@ -219,23 +219,16 @@ Definition quiescent (s : sys) : Prop :=
 
 (** * Synchronous mode (no SyncWAL goroutine: background sync disabled) with triggers that WRITE
 
-    Without a WAL goroutine RequestFlush runs FlushToWAL in the caller (wal.go:785-790).  A trigger whose Fire
-    writes (contrib/ondiskagg: Fire -> executor.WriteCSM) therefore runs FlushCommandsToWAL in its FIRE
-    goroutine, on the same dispatcher, concurrently with whoever else is flushing.  A flush is then NOT
-    atomic w.r.t. tpd.m; the model splits it at the points that matter:
-      SAppend cmds   the AppendRecord loop (wal.go:326-338)
-      SSendAll       DispatchRecords' range loop: every entry of tpd.m is sent to tpd.c (written.go:63-65)
-      SReset         tpd.m = nil (written.go:66)
-    Each of the three runs without interference here, i.e. the LTS has FEWER interleavings than the code
-    (which can also interleave inside the loops and then die of "concurrent map iteration and map write"):
-    every execution of the LTS is an execution of the code, which is all a refutation needs. *)
-Inductive sop := SAppend (cmds : list cmd) | SSendAll | SReset.
-Definition flush_prog (cmds : list cmd) : list sop := [SAppend cmds; SSendAll; SReset].
-
+    Without a WAL goroutine RequestFlush runs FlushToWAL in the caller.  A trigger whose Fire writes
+    (contrib/ondiskagg: Fire -> executor.WriteCSM) therefore flushes from its FIRE goroutine, on the same
+    dispatcher, concurrently with whoever else is flushing.  Since the fix "RequestFlush serialises the flushes
+    it runs in its callers' goroutines" (WALFileType.syncFlushMu, wal.go RequestFlush) these flushes take turns:
+    a whole FlushToWAL -- AppendRecord loop, DispatchRecords' sends, tpd.m = nil -- is one atomic step w.r.t.
+    tpd.m, exactly as in background mode, and tpd.m is nil between flushes.  Threads: the callers and the fire
+    goroutines of writing triggers, each with the commands of its pending flush ([] = done). *)
 Record ssys := mkssys {
-  y_m : smap rec;                 (* tpd.m, shared and unsynchronised *)
   y_c : list wrecs;               (* tpd.c *)
-  y_threads : list (list sop);    (* goroutines inside FlushCommandsToWAL: the callers and the fire goroutines *)
+  y_threads : list (list cmd);    (* pending synchronous flushes *)
   y_fired : list fire;            (* Trigger.Fire calls made *)
   y_appended : list cmd           (* history variable: every command ever passed to AppendRecord *)
 }.
@@ -245,60 +238,20 @@ Section SyncMode.
   (** what trigger t's Fire writes when it is fired with message wr ([] = it does not write) *)
   Variable react : nat -> wrecs -> list cmd.
 
-  Definition spawn (fs : list fire) : list (list sop) :=
-    flat_map (fun f => match react (f_trig f) (f_key f, f_recs f) with [] => [] | cmds => [flush_prog cmds] end) fs.
+  Definition spawn (fs : list fire) : list (list cmd) :=
+    flat_map (fun f => match react (f_trig f) (f_key f, f_recs f) with [] => [] | cmds => [cmds] end) fs.
 
   Inductive sstep : ssys -> ssys -> Prop :=
-  | Ss_append : forall s i cmds rest,
-      nth_error (y_threads s) i = Some (SAppend cmds :: rest) ->
-      sstep s (mkssys (flush_m (writes_per_file cmds) (y_m s)) (y_c s) (set_nth (y_threads s) i rest)
-                      (y_fired s) (y_appended s ++ cmds))
-  | Ss_send : forall s i rest,
-      nth_error (y_threads s) i = Some (SSendAll :: rest) ->
-      sstep s (mkssys (y_m s) (y_c s ++ y_m s) (set_nth (y_threads s) i rest) (y_fired s) (y_appended s))
-  | Ss_reset : forall s i rest,
-      nth_error (y_threads s) i = Some (SReset :: rest) ->
-      sstep s (mkssys [] (y_c s) (set_nth (y_threads s) i rest) (y_fired s) (y_appended s))
-  | Ss_dispatch : forall s wr rest,          (* run: Match loop, go fire; Fire is called, writing triggers start a flush *)
+  | Ss_flush : forall s i cmds ord1 ord2,    (* one caller holds syncFlushMu for its whole FlushToWAL *)
+      nth_error (y_threads s) i = Some cmds -> cmds <> [] -> flush_ok cmds ord1 ord2 ->
+      sstep s (mkssys (y_c s ++ flush_msgs ord2) (set_nth (y_threads s) i []) (y_fired s) (y_appended s ++ cmds))
+  | Ss_dispatch : forall s wr rest,          (* run: Match loop, go fire; Fire is called, writing triggers queue a flush *)
       y_c s = wr :: rest ->
-      sstep s (mkssys (y_m s) rest (y_threads s ++ spawn (run_entry trigs wr))
-                      (y_fired s ++ run_entry trigs wr) (y_appended s)).
+      sstep s (mkssys rest (y_threads s ++ spawn (run_entry trigs wr)) (y_fired s ++ run_entry trigs wr) (y_appended s)).
 
   Inductive ssteps : ssys -> ssys -> Prop :=
   | Sss_refl : forall s, ssteps s s
   | Sss_step : forall s1 s2 s3, sstep s1 s2 -> ssteps s2 s3 -> ssteps s1 s3.
 End SyncMode.
 
-Definition sinit (callers : list (list cmd)) : ssys := mkssys [] [] (map flush_prog callers) [] [].
-
-(** executable scheduler for the synchronous-mode LTS: run thread i's next operation / let the dispatcher
-    handle the next message *)
-Inductive slabel := LThread (i : nat) | LDispatch.
-
-Definition sexec (trigs : list (list tok)) (react : nat -> wrecs -> list cmd) (l : slabel) (s : ssys) : option ssys :=
-  match l with
-  | LThread i =>
-      match nth_error (y_threads s) i with
-      | Some (SAppend cmds :: rest) =>
-          Some (mkssys (flush_m (writes_per_file cmds) (y_m s)) (y_c s) (set_nth (y_threads s) i rest)
-                       (y_fired s) (y_appended s ++ cmds))
-      | Some (SSendAll :: rest) =>
-          Some (mkssys (y_m s) (y_c s ++ y_m s) (set_nth (y_threads s) i rest) (y_fired s) (y_appended s))
-      | Some (SReset :: rest) =>
-          Some (mkssys [] (y_c s) (set_nth (y_threads s) i rest) (y_fired s) (y_appended s))
-      | _ => None
-      end
-  | LDispatch =>
-      match y_c s with
-      | wr :: rest =>
-          Some (mkssys (y_m s) rest (y_threads s ++ spawn react (run_entry trigs wr))
-                       (y_fired s ++ run_entry trigs wr) (y_appended s))
-      | [] => None
-      end
-  end.
-
-Fixpoint sexec_all trigs react (ls : list slabel) (s : ssys) : option ssys :=
-  match ls with
-  | [] => Some s
-  | l :: r => match sexec trigs react l s with Some s' => sexec_all trigs react r s' | None => None end
-  end.
+Definition sinit (callers : list (list cmd)) : ssys := mkssys [] callers [] [].
